@@ -398,7 +398,23 @@ func c12Middleware(c *Ctx, gd *Module) {
 	r.Check("C12.middleware", "newHandler/upload route is served through the chain", gd.Pos(nh.Pos()), okRet, "return Chain(...)(mux) with mux.Handle(\"/upload/\", handleUpload(...))")
 	// Chain applies every middleware (loop over its parameter)
 	// RequestSize: body replaced by MaxBytesReader(w, r.Body, n) before delegating
-	rs := gd.Func("internal/middleware", "RequestSize$1$1")
+	// the handler installed by RequestSize is found by what it does: the one function of the
+	// middleware package that wraps the body in http.MaxBytesReader (a function literal in the
+	// reference tree; a method of a small handler type would do as well)
+	var rs *ssa.Function
+	for _, f := range gd.srcFns {
+		if f.Pkg != nil && f.Pkg == gd.Pkg("internal/middleware") && len(callsIn(f, "net/http.MaxBytesReader")) > 0 {
+			if rs != nil {
+				rs = nil
+				break
+			}
+			rs = f
+		}
+	}
+	if rs == nil {
+		r.Check("C12.middleware", "RequestSize/handler that limits the body found", "-", false, "exactly one function of internal/middleware must call http.MaxBytesReader")
+		return
+	}
 	var store *ssa.Store
 	for _, in := range instrsOf(rs) {
 		st, ok := in.(*ssa.Store)
@@ -412,14 +428,18 @@ func c12Middleware(c *Ctx, gd *Module) {
 		if _, f, _ := fieldAddrName(fa); f != "Body" {
 			continue
 		}
-		d := describe(st.Val)
-		if strings.HasPrefix(d, "net/http.MaxBytesReader(param:w, param:r.Body, ") && fa.X == ssa.Value(rs.Params[1]) {
-			// the limit is RequestSize's parameter
-			if cl, ok := strip(st.Val).(*ssa.Call); ok {
-				if ld := describe(argsOf(cl)[2]); ld == "param:n" || strings.HasSuffix(ld, ":n") || strings.Contains(ld, "alloc:n#") {
-					store = st
-				}
-			}
+		req, isParam := fa.X.(*ssa.Parameter)
+		cl, isCall := strip(st.Val).(*ssa.Call)
+		if !isParam || !isCall || calleeName(&cl.Call) != "net/http.MaxBytesReader" {
+			continue
+		}
+		a := argsOf(cl)
+		_, wIsParam := a[0].(*ssa.Parameter)
+		bb, bf, isBody := fieldLoad(a[1])
+		// the limit is RequestSize's parameter (directly captured, or stored in the handler value)
+		ld := describe(a[2])
+		if wIsParam && isBody && bf == "Body" && strip(bb) == ssa.Value(req) && (ld == "param:n" || strings.HasSuffix(ld, ":n")) {
+			store = st
 		}
 	}
 	okOrder := store != nil
